@@ -76,6 +76,11 @@ def r1_who_keeps_stopped_pending(ctx):
     R.fn(pc)
     sel = pc.calls_to(r"^futures_util::future::select$")
     R.check(len(sel) == 1, "C10.R1", "process_connection:select", "the connection is raced against the stop signal", "%d select sites in the connection task" % len(sel), "%s:%d" % (pc.file, pc.lo))
+    # nothing is awaited in the connection task before that race: a wait in front of it (peeking at the first byte of the
+    # socket, a handshake, a timer) is not cancelled by stop(), so a silent peer pins `stopped()` for as long as it likes
+    if sel:
+        early = [c for c in pc.calls_to(r"IntoFuture>?::into_future$") if (c.exp or "").startswith("d:Await") and not pc.dominates(sel[0].bb, c.bb)]
+        R.check(not early, "C10.R1", "process_connection:nothing-awaited-before-the-race", "the connection task awaits nothing before racing the connection against the stop signal", "the connection task awaits something before it starts racing the connection against the stop signal (%s): that wait does not end when the server is stopped" % [where(c) for c in early], where(early[0]) if early else None)
     tokens = drop_sites(pc, "mpsc::Sender<()>")
     R.floor("C10.R1.token", len(tokens), 1, "drop sites of the completion token in the connection task")
     if sel:
@@ -415,7 +420,25 @@ def rspawn_vetted_spawn_sites(ctx):
     vetted_spawns(ctx, "C10.SPAWN")
 
 
-RULES = [r1_who_keeps_stopped_pending, r2_service_handle, r3_writer_stops_last, r4_http_stop_arm, rspawn_vetted_spawn_sites, rloop_event_loops_keep_polling, r5_token_is_not_duplicated_by_the_connection, r6_stop_is_always_reported_as_stop, rhyper_vetted_transport_options] + BORROWED
+def r7_stopped_waits_for_every_stop_handle(ctx):
+    """`ServerHandle::stopped()` is `closed()` of the stop channel's sender: it resolves when the last StopHandle (one per
+    connection task, WebSocket sessions included) is gone. Tied to anything else - the accept task finishing - it resolves
+    while upgraded connections, which that task never joins, are still answering."""
+    F, R = ctx.F, ctx.R
+    tr = ctx.tracer(follow_callers=False, follow_fields=False, inline_calls=False)
+    b = F.one(r"^jsonrpsee_server::future::ServerHandle::stopped::\{closure#0\}$")
+    R.fn(b)
+    aw = [c for c in b.calls_to(r"IntoFuture>?::into_future$") if (c.exp or "").startswith("d:Await")]
+    R.floor("C10.R7", len(aw), 1, "awaits in ServerHandle::stopped")
+    for c in aw:
+        names = {l.detail.get("callee") or "?" for l in tr.origins(b, c.args[0]) if l.kind == "call"} or {"?"}
+        ok = all(re.search(r"watch::Sender::<.*>::closed$", nm) for nm in names)
+        R.check(ok, "C10.R7", "stopped:awaits-the-stop-channel", "stopped() awaits closed() of the stop sender", "ServerHandle::stopped awaits %s, not `closed()` of the stop channel: it can resolve while tasks that still hold a StopHandle (upgraded WebSocket connections) are running" % sorted(short(x) for x in names), where(c))
+    isb = F.one(r"^jsonrpsee_server::future::ServerHandle::is_stopped$")
+    R.check(bool(isb.calls_to(r"watch::Sender::<.*>::is_closed$")) and not [bi for bi, blk in enumerate(isb.blocks) if bi in isb.reachable and blk["term"] and blk["term"]["t"] == "switch"], "C10.R7", "is_stopped:is_closed", "is_stopped() is is_closed() of the stop sender", "ServerHandle::is_stopped no longer reports is_closed() of the stop channel alone", "%s:%d" % (isb.file, isb.lo))
+
+
+RULES = [r7_stopped_waits_for_every_stop_handle, r1_who_keeps_stopped_pending, r2_service_handle, r3_writer_stops_last, r4_http_stop_arm, rspawn_vetted_spawn_sites, rloop_event_loops_keep_polling, r5_token_is_not_duplicated_by_the_connection, r6_stop_is_always_reported_as_stop, rhyper_vetted_transport_options] + BORROWED
 
 LEVEL_TEXT = (
     "Only the ownership / ordering skeleton of graceful stop is decided (the statement quantifies over schedules): which "
